@@ -662,6 +662,12 @@ func c10Cases(tier string) map[string][]c10Case {
 					out["fmp4 codecs"] = append(out["fmp4 codecs"], c10Case{Container: "fmp4", Base: 540000, Tracks: tracks, Frags: 1, PDT: pdt, VOD: true, NSeg: 3, Video: v, Audio: a})
 				}
 			}
+			// the audio track listed first in the init segment and starting before / after the video: the video track still leads
+			for _, lead := range []int{0, 100, -100} {
+				for _, frags := range []int{1, 3} {
+					out["fmp4 codecs"] = append(out["fmp4 codecs"], c10Case{Container: "fmp4", Base: 540000, Tracks: "av", Frags: frags, PDT: true, VOD: true, NSeg: 3, Video: v, Audio: a, AudioLead: lead})
+				}
+			}
 		}
 	}
 	for _, tracks := range []string{"a", "va", "v+a"} {
